@@ -200,8 +200,11 @@ def main(argv=None):
             if bad and 'vacuity:exit' in name: unreachable_exits.append(name)
             elif bad: vacuous.append(name)
             continue
+        # a counter-model found on a path through a loop that was cut with the trivial invariant (a loop the contracts do not
+        # know) may come from the forgotten state only: such a path is undecided, not refuted
+        firm = [r['result'] for o, r in items if not any(l.endswith('.noinv') for l in o.labels)]
         if all(x == 'unsat' for x in rs): verdict[name] = 'discharged'
-        elif any(x == 'sat' for x in rs): verdict[name] = 'refuted'
+        elif any(x == 'sat' for x in firm): verdict[name] = 'refuted'
         else: verdict[name] = 'unknown'
     # scans
     for s in run.scans:
